@@ -2,6 +2,7 @@ package main
 
 import (
 	"go/token"
+	"go/types"
 
 	"golang.org/x/tools/go/ssa"
 )
@@ -314,6 +315,9 @@ func init() {
 		Rules: []func(*Ctx){func(c *Ctx) { ruleC12a(c, "C12.a") }, func(c *Ctx) { ruleC12b(c, "C12.b") }, func(c *Ctx) { ruleC12c(c, "C12.c") }, func(c *Ctx) { ruleC12d(c, "C12.d") }, func(c *Ctx) { ruleC12e(c, "C12.e") }, func(c *Ctx) { ruleC02f(c, "C12.f") }, func(c *Ctx) { ruleC12h(c, "C12.h") }, func(c *Ctx) {
 			c.describe("C12.g", "dom: a rejected entry still advances the offset (t.skip)")
 			ruleSkipOnReject(c, "C12.g")
+		}, func(c *Ctx) { ruleC12k(c, "C12.k") }, func(c *Ctx) {
+			c.describe("C12.j", "= C10.c: leader and follower hash the same partition keys in the same order (the follower's table.PartitionBy is the sorted list it announced)")
+			ruleC10c(c, "C12.j")
 		}},
 	})
 }
@@ -391,4 +395,37 @@ func ruleC12h(c *Ctx, rule string) {
 		}
 	}
 	c.floor(rule, "appends to the followed tables in followLeaders", n, 1)
+}
+
+// ruleC12k: the leader never drops an entry it routed to a live follower.
+func ruleC12k(c *Ctx, rule string) {
+	c.describe(rule, "dom: (*follower).submit hands an entry to the follower's queue with a blocking send on every path where the follower has not failed — a non-blocking send (select with default) that gives up on a full queue loses the entry, and since processFollowers skips failed followers without closing their stream the follower silently stops receiving")
+	sb := c.need(rule, "(*z.follower).submit")
+	if sb == nil {
+		return
+	}
+	nSend := 0
+	bad := ""
+	for _, in := range instrs(sb) {
+		switch x := in.(type) {
+		case *ssa.Send:
+			if isFieldLoad(x.Chan, "z.follower.entries") {
+				nSend++
+			}
+		case *ssa.Select:
+			for _, st := range x.States {
+				if st.Dir == types.SendOnly && isFieldLoad(st.Chan, "z.follower.entries") {
+					nSend++
+					if !x.Blocking {
+						bad = c.P.Pos(x.Pos())
+					}
+				}
+			}
+		}
+	}
+	if nSend == 0 {
+		c.undecided(rule, "follower.submit delivers with a blocking send", sb.Pos(), "no send on follower.entries found in submit")
+		return
+	}
+	c.check(rule, "follower.submit delivers with a blocking send", sb.Pos(), bad == "", "f.entries <- entry blocks until the follower's queue takes the entry", "the send to the follower's queue is non-blocking (select with default at "+bad+"): when the queue is full the entry — and, once the follower is marked failed, every later one — is dropped while the follower's stream stays open, so the follower silently misses data")
 }
